@@ -62,7 +62,7 @@ def greedyb (env : Env) : Nat → Ty → Bool
     | .either l r => greedyb env fuel l || greedyb env fuel r
     | .eitherRef t => greedyb env fuel t
     | .prim p => p.greedy
-    | .cell | .opaque _ | .vmStack _ | .dict _ _ | .chain _ => true
+    | .cell | .opaque _ | .vmStack _ | .dict _ _ | .chain _ | .dictAug _ _ _ | .custom _ _ _ | .binTree _ => true
     | _ => false
 def greedyFields (env : Env) : Nat → Fields → Bool
   | 0, _ => true
@@ -139,6 +139,7 @@ def wfb (env : Env) : Ty → Bool
   | .dictE k t => (keyWidth k).isSome && wfb env k && wfb env t
   | .dict k t => (keyWidth k).isSome && wfb env k && wfb env t
   | .highload => true
+  | .dictAugE _ _ _ | .dictAug _ _ _ | .custom _ _ _ | .binTree _ => false   -- decode-side models: no round-trip claim
   | .chain _ => false                    -- takes the next reference if there is one: outside the greedy/non-greedy split
   | .encErr _ => true
   | .opaque _ => false
